@@ -8,6 +8,8 @@ Proof (coq/props/C15.v) + ties:
   oracle: an independent Python statement of the property evaluated on api.npu_find_block_configs and on the registers
      decoded from api.npu_generate_register_command_stream for every offered configuration, plus the proved validator
      check_blockcfg (extracted) on the same registers.
+  D2 the same oracle and validator on the block / SHRAM registers of every operation of the command streams of the
+     tier's real compilations (plan and cache shared with C02/C03; operations as captured by tools/wrap.py).
 """
 import random
 import time
@@ -56,12 +58,14 @@ def is_ew(d):
 
 
 def is_unary(d):
-    return d["kind"] in ("ew_abs", "ew_lrelu")
+    return d["kind"] in ("ew_abs", "ew_lrelu", "ew_clz")
 
 
 def ifm_dims(d):
     """IFM h, w consistent with OFM, kernel, stride, dilation, upscale (valid padding; what is left is padded)"""
     oh, ow, _ = d["ofm"]
+    if d.get("ifm_hw"):
+        return tuple(d["ifm_hw"])
     if is_ew(d):
         return oh, ow
     kw, kh, sx, sy, dx, dy = d["kernel"]
@@ -154,7 +158,7 @@ def requirement(d, acc_name, blk, acc_bits):
     need_h = cdiv((bh - 1) * sy + min((kh - 1) * dy + 1, SUBKERNEL_MAX) + near, up)
     need_w = cdiv((bw - 1) * sx + min((kw - 1) * dx + 1, SUBKERNEL_MAX) + near, up)
     ifm_h, ifm_w = rup(need_h, uh), rup(need_w, uw)
-    if d["kind"] in EQUAL_DEPTH:
+    if d["kind"] in EQUAL_DEPTH or is_ew(d):
         ifm_c = bc
     else:
         depth = d["ifm_depth"]
@@ -167,7 +171,7 @@ def requirement(d, acc_name, blk, acc_bits):
     ifm_banks = rup(2 * cdiv(ifm_bytes, BANK), gran)
     lut_first = hw["banks"] - max(2 if d["lut"] else 0, hw["end"])
     if is_ew(d):
-        full = (not is_unary(d)) and d["ifm2"] != "scalar"
+        full = (not is_unary(d)) and d["ifm2"] not in (None, "scalar")
         return ifm_banks, (ifm_banks if full else 0), 0, lut_first
     # 256/512 MAC engines compute a 1-row OFM with a 1-row kernel in half micro-blocks: accumulators for one row
     acc_h = 1 if (oh == 1 and kh == 1 and uh == 2) else bh
@@ -227,6 +231,58 @@ def decode(words):
     return regs, nops
 
 
+def decode_ops(words):
+    """command words -> [(op command name, snapshot of the cmd0 registers at that operation)] (register writes persist)"""
+    from ethosu.vela.ethos_u55_regs.ethos_u55_regs import cmd0
+    names = {int(c.value): c.name for c in cmd0}
+    regs = {}
+    out = []
+    i = 0
+    while i < len(words):
+        w = words[i]
+        if w & 0x4000:
+            i += 2
+            continue
+        n = names.get(w & 0x3FF)
+        if n in ("NPU_OP_CONV", "NPU_OP_DEPTHWISE", "NPU_OP_POOL", "NPU_OP_ELEMENTWISE"):
+            out.append((n, dict(regs)))
+        elif n is not None:
+            regs[n] = (w >> 16) & 0xFFFF
+        i += 1
+    return out
+
+
+def desc_of_captured(o):
+    """operation descriptor from an NpuOperation serialised by tools/wrap.py; None for DMA"""
+    a = o["api"]
+    cls = o["cls"]
+    if cls == "NpuConv2DOperation":
+        kind = "conv"
+    elif cls == "NpuConvDepthWiseOperation":
+        kind = "depthwise"
+    elif cls == "NpuPoolingOperation":
+        kind = {"MAX": "maxpool", "AVERAGE": "avgpool", "REDUCE_SUM": "reduce_sum"}[a["sub_op_type"]]
+    elif cls == "NpuElementWiseOperation":
+        kind = "ew_" + a["sub_op_type"].lower()
+    else:
+        return None
+    sh = lambda f: (f["shape"]["height"], f["shape"]["width"], f["shape"]["depth"])
+    k = a.get("kernel")
+    d = dict(kind=kind, ofm=sh(a["ofm"]), ifm_depth=a["ifm"]["shape"]["depth"], ifm_hw=sh(a["ifm"])[:2],
+             kernel=(k["width"], k["height"], k["stride_x"], k["stride_y"], k["dilation_x"], k["dilation_y"]) if k else (1, 1, 1, 1, 1, 1),
+             bits={"INT8": 8, "UINT8": 8, "INT16": 16, "UINT16": 16, "INT32": 32}[a["ifm"]["data_type"]],
+             lut=bool(a.get("activation")) and a["activation"]["op_type"] == "TABLE_LOOKUP", upscale=a["ifm_upscale"], quant="scale",
+             partkernel=a.get("block_traversal") == "PART_KERNEL_FIRST")
+    if a.get("ifm2") is None:
+        d["ifm2"] = None
+    elif a.get("ifm2_scalar") is not None:
+        d["ifm2"] = "scalar"
+    else:
+        d["ifm2"] = sh(a["ifm2"])
+    bc = a["block_config"]
+    return d, (bc["height"], bc["width"], bc["depth"])
+
+
 def registers_ok(d, acc_name, blk, regs):
     """the emitted block / SHRAM registers satisfy the property for operation d"""
     hw = HW[acc_name]
@@ -250,8 +306,10 @@ def registers_ok(d, acc_name, blk, regs):
         return "partitions not ordered inside the SHRAM: IB_START %d IB_END %d AB_START %d LUT %d banks %d" % (
             ib_start, ib_end, ab_start, lut_first, hw["banks"])
     if is_ew(d):
-        ib2 = regs.get("NPU_SET_IFM2_IB_START")
-        full = (not is_unary(d)) and d["ifm2"] != "scalar"
+        full = (not is_unary(d)) and d["ifm2"] not in (None, "scalar")
+        # IFM2_IB_START is only written (and only read by the hardware) for a tensor second operand; an older value
+        # may persist in the register file of a longer stream
+        ib2 = regs.get("NPU_SET_IFM2_IB_START") if full else None
         if full and ib2 is None:
             return "IFM2_IB_START not emitted for a binary elementwise operation"
         if ib2 is not None:
@@ -387,7 +445,7 @@ def out_cfg(c):
 
 
 # ---------------------------------------------------------------------------------------------------------------------
-def correspondence(res, rng, tier, stats):
+def correspondence(rng, tier, stats):
     """extracted model vs the real functions; returns the first difference (or None)"""
     from ethosu.vela import architecture_allocator as aa
     from ethosu.vela.architecture_features import Accelerator, Block, SHRAMConfig, create_default_arch
@@ -610,7 +668,7 @@ def op_model_args(d, acc_index, blk, scaled):
             pk] + list(d["kernel"]) + [2 if d["lut"] else 0, int(scaled), rs]
 
 
-def api_oracle(res, rng, tier, stats):
+def api_oracle(rng, tier, stats):
     """property oracle on api.npu_find_block_configs / npu_generate_register_command_stream; returns list of failures"""
     from ethosu.vela import api
     from ethosu.vela.architecture_features import Accelerator
@@ -693,6 +751,60 @@ def api_oracle(res, rng, tier, stats):
     return fails, (mcases, mmeta), (vcases, vmeta)
 
 
+D2_FAMS = ["conv_chain", "conv_chain_big", "single", "diamond", "mixed_cpu", "lut_heavy", "conv_chain_big", "single"]
+
+
+def compiled_oracle(tier, stats):
+    """D2: the block / SHRAM registers of every operation of every command stream of the tier's compilations (the plan
+    shared with C02/C03) against the property oracle; returns (failures, validator cases, their meta)"""
+    import artefacts
+    import compiles
+    fails, vcases, vmeta = [], [], []
+    n = 64 if tier == "quick" else 1600
+    jobs = compiles.plan(D2_FAMS, n, vlib.seed(), tag="d2", capture=True)
+    t0 = time.time()
+    results = compiles.run_all(jobs, timeout=900)
+    acc_names = list(HW)
+    comp = {"compilations": len(results), "compiled_ok": 0, "streams": 0, "ops": 0, "kinds": {}}
+    for r in results:
+        if r.get("status") != "ok":
+            continue
+        comp["compiled_ok"] += 1
+        art = artefacts.load(r)
+        cap = art.get("capture") if art else None
+        if not cap:
+            continue
+        for st in cap["streams"]:
+            name = st["accelerator"]
+            snaps = decode_ops(st["words"])
+            blockops = [x for x in (desc_of_captured(o) for o in st["ops"]) if x is not None]
+            comp["streams"] += 1
+            if len(snaps) != len(blockops):
+                fails.append(dict(kind="registers_invalid", accelerator=name, op={"kind": "stream", "net": r.get("net_desc")},
+                                  block=None, why="stream has %d NPU operations, %d were given" % (len(snaps), len(blockops)),
+                                  compilation=r["job"]))
+                continue
+            for (opname, regs), (d, blk) in zip(snaps, blockops):
+                comp["ops"] += 1
+                stats["evals"] += 1
+                comp["kinds"][d["kind"]] = comp["kinds"].get(d["kind"], 0) + 1
+                stats["nontrivial"].add(("compiled", d["kind"], d["bits"], d["lut"], name, blk))
+                why = registers_ok(d, name, blk, regs)
+                if why:
+                    fails.append(dict(kind="registers_invalid", accelerator=name, op=d, block=blk, why="compiled stream: " + why,
+                                      regs={k: v for k, v in regs.items() if "BLK" in k or "IB_" in k or "AB_" in k or "ACC" in k},
+                                      compilation=r["job"], net=r.get("net_desc")))
+                    continue
+                ma = op_model_args(d, acc_names.index(name), blk, False)
+                vcases.append(ma[:-2] + [ma[-1], regs["NPU_SET_IFM_IB_END"], regs.get("NPU_SET_IFM2_IB_START", 0),
+                                         regs["NPU_SET_AB_START"], regs["NPU_SET_ACC_FORMAT"],
+                                         int(d["ifm2"] not in (None, "scalar"))])
+                vmeta.append((d, name, blk, regs))
+    comp["wall_s"] = round(time.time() - t0, 1)
+    stats["compiled"] = comp
+    return fails, vcases, vmeta
+
+
 def diagnose_reject(d, acc_index, blk):
     """why the generator rejected an offered block: compare the real try_block_config under both `scaled` values"""
     from ethosu.vela import architecture_allocator as aa
@@ -733,10 +845,17 @@ def run(tier):
     model_diff = None
     fails = []
     if okx:
-        model_diff = correspondence(res, rng, tier, stats)
+        model_diff = correspondence(rng, tier, stats)
     else:
         res.notes.append("extraction build failed: " + xlog[-500:])
-    fails, (mcases, mmeta), (vcases, vmeta) = api_oracle(res, rng, tier, stats)
+    fails, (mcases, mmeta), (vcases, vmeta) = api_oracle(rng, tier, stats)
+    try:
+        cfails, cv, cm = compiled_oracle(tier, stats)
+        fails += cfails
+        vcases += cv
+        vmeta += cm
+    except Exception as ex:  # the compile infrastructure is shared; its failure is not a statement about C15
+        res.notes.append("compiled-stream step not run: %r" % (ex,))
     if okx:
         # offered blocks vs the model's try_block_config; decoded registers vs the proved validator
         for (d, name, blk), o in zip(mmeta, prun("try_block_config", mcases)):
@@ -776,6 +895,8 @@ def run(tier):
                               "and larger random shapes x 3 random accelerators (all 6 in thorough); every offered block judged, "
                               "up to %d per operation fed back through the generator" % (10 if tier == "quick" else 60),
         "samples": stats["samples"],
+        "programs": stats.get("compiled", {}).get("streams", 0),
+        "compiled_streams": stats.get("compiled", {}),
         "timing_s": {k: v for k, v in stats.items() if k.startswith("t_")},
     })
     res.assumptions += ["hardware facts in the HW table of tools/checks/c15.py",
